@@ -142,6 +142,66 @@ def script_operator_pairs(kind, rng, nv=4):
     return ops
 
 
+def script_operator_pairs_tdd(rng, nv=3):
+    """TDD (package TDDx): all ordered pairs of the 8 three-valued connectives + ite issued back to back on the same
+    operands (also swapped; ite with its then/else operands swapped and with repeated operands: the short-cuts of
+    apply_ite_rec re-enter apply_bin with Or / And / Imp / ImpStrict and share its cache entries), not in between,
+    repeated after gc / set_var_order / add_vars"""
+    ops = [f"VARS {nv}"]
+    pool = []
+    for v in range(nv):
+        ops.append(f"T3VAR h{len(pool)} {v}"); pool.append(len(pool))
+    for c in "fut":
+        ops.append(f"T3CONST h{len(pool)} {c}"); pool.append(len(pool))
+    while len(pool) < nv + 3 + 10:
+        d = len(pool)
+        if rng.random() < 0.8:
+            ops.append(f"{rng.choice(ddgen.T3_BIN_OPS)} h{d} h{rng.choice(pool)} h{rng.choice(pool)}")
+        else:
+            ops.append(f"T3ITE h{d} h{rng.choice(pool)} h{rng.choice(pool)} h{rng.choice(pool)}")
+        pool.append(d)
+    ops.append("SNAP")
+    k = 100
+    allops = ddgen.T3_BIN_OPS + ["T3ITE"]
+    pairs = [(o1, o2) for o1 in allops for o2 in allops]
+    rng.shuffle(pairs)
+
+    def emit(o, a, b, c):
+        nonlocal k
+        if o == "T3ITE":
+            ops.append(f"T3ITE h{k} h{a} h{b} h{c}")
+        else:
+            ops.append(f"{o} h{k} h{a} h{b}")
+        k += 1
+
+    for idx, (o1, o2) in enumerate(pairs):
+        a, b = rng.choice(pool), rng.choice(pool)
+        c = rng.choice([a, b, rng.choice(pool), rng.choice(pool)])
+        emit(o1, a, b, c)
+        emit(o2, a, b, c)
+        emit(o2, b, a, c)
+        if rng.random() < 0.3:
+            ops.append(f"T3NOT h{k} h{rng.choice([a, b])}"); k += 1
+        emit(o1, a, b, c)
+        if idx % 7 == 3:
+            ops.append("SNAP")
+            for j in range(max(100, k - 40), k):
+                ops.append(f"DROP h{j}")
+            ev = rng.random()
+            if ev < 0.5:
+                ops.append("GC")
+            elif ev < 0.85 and nv >= 2:
+                ops.append("ORDER " + " ".join(map(str, rng.sample(range(nv), nv))))
+            elif nv < 5:
+                ops.append("VARS 1"); nv += 1
+            else:
+                ops.append("GC")
+            emit(o1, a, b, c)
+            emit(o2, a, b, c)
+    ops.append("SNAP")
+    return ops
+
+
 def gen_scripts(ctx):
     rng = random.Random(ctx.seed * 7919 + 6)
     thorough = ctx.tier == "thorough"
@@ -161,6 +221,12 @@ def gen_scripts(ctx):
             else:
                 h, ops = ddgen.case_history("x", kind, rng, nv=rng.randrange(3, 7), length=80)
             scripts.append((kind, True, ops))
+    # TDD (package TDDx; theorems C06_tdd_*)
+    for _ in range(12 if thorough else 3):
+        scripts.append(("tdd", False, script_operator_pairs_tdd(rng, nv=rng.randrange(2, 4))))
+    for _ in range(200 if thorough else 24):
+        h, ops = ddgen.tdd_case_history("x", rng, length=80)
+        scripts.append(("tdd", True, ops))
     return scripts
 
 
@@ -174,7 +240,7 @@ def run(ctx):
             cases.append((ddgen.header(f"s{i}c{c}", kind, cap=1 << 15, cache=c, snap_each=each), ops))
         # cache-free reference: a collection (= apply cache cleared) before every operation
         cases.append((ddgen.header(f"s{i}cG", kind, cap=1 << 15, cache=16, snap_each=each, extra="gcall=1"), ops))
-    args = ["--props", "C02,C04,C09,C10,C12,C13"]
+    args = ["--props", "C02,C04,C09,C10,C11,C12,C13"]
     ok, bad, digests = vf.lockstep_sharded(ctx, binp, drv, cases, drv_args=args)
     badmap = {cid: msg for cid, msg in bad}
     nviol = 0
@@ -211,7 +277,7 @@ def run(ctx):
     ctx.samples = [{"kind": k, "ops": o[:14] + ["..."]} for k, _, o in scripts[:2] + scripts[-1:]]
     vf.write_evidence(
         ctx, "proof",
-        rule="script = operation list (operator-pair scripts: every ordered pair of the 8 Boolean resp. 6 arithmetic operators issued back to back on the same operands incl. swapped operands, repeated after gc/set_var_order/add_vars; random histories); each script runs under apply-cache capacities 1, 2, 16, 65536 and once with a collection (apply cache cleared) before every operation as the cache-free reference; compared: per-script digest of all result value tables, node counts, counts; kinds bdd, bcdd, zbdd, mtbdd. non-trivial = every script; distinct = distinct op lists",
+        rule="script = operation list (operator-pair scripts: every ordered pair of the 8 Boolean resp. 6 arithmetic operators issued back to back on the same operands incl. swapped operands, repeated after gc/set_var_order/add_vars; random histories); each script runs under apply-cache capacities 1, 2, 16, 65536 and once with a collection (apply cache cleared) before every operation as the cache-free reference; compared: per-script digest of all result value tables, node counts, counts; kinds bdd, bcdd, zbdd, mtbdd, tdd (tdd operator-pair scripts: every ordered pair of the 8 three-valued connectives and ite on the same operands, ite also with repeated operands, not in between; tdd histories with cofactors, eval, gc, reordering, add_vars; compared: value tables over all 3^n ternary assignments, cofactor tables, eval results, node counts). non-trivial = every script; distinct = distinct op lists",
         checker_cmd="make -C coq Props/C06.vo (coqc 8.16.1) + Print Assumptions audit; ./check C06",
         extra_cov={"cases_ok": ok, "cases_bad": len(bad), "capacities": CACHES, "tier": ctx.tier})
 
